@@ -24,38 +24,38 @@ type Clause struct {
 }
 
 type Contract struct {
-	Fn       string // qualified: pkg.Name or pkg.Recv.Name
-	Pkg      string
-	Props    []string
-	Requires []*Clause
-	Ensures  []*Clause
-	Invs     []*Clause // invariant + decreases
-	Pure     bool
-	Trusted  bool   // body is not verified (external or abstracted)
-	TrustWhy string // reason text for evidence
-	Inline   bool
-	TrustedPost bool // body is verified for safety, its postconditions are assumed (reason in TrustWhy)
-	Frozen   []string // heap-name prefixes read in the entry state by abstract predicates (separation assumption)
-	NoMerge  bool // transparent callee whose return paths are continued separately
-	Transparent bool // private loop-free helper executed in place at its call sites (no contract boundary)
-	ByExec   bool // contract is discharged by exhaustive execution over the full (finite) input domain
-	Allocs   int // -1 = unspecified
-	Assigns  []*Clause
-	Reads    []string // explicit heap names (trusted contracts)
-	Fresh    []string
-	Params   []string // names given in header for external functions (optional)
-	ParamTys []string
-	ResNames []string
-	ResTys   []string
-	Ghost    []*Clause
-	File     string
-	Line     int
-	Opaque   bool // callers see only declared ensures (default)
-	NoSafety bool
-	Unfold   []*Clause
-	Lemmas   []string // names of lemmas whose statements are assumed in this function's VCs
-	Hints    []*Clause
-	OnAppend []*Clause // obligations on every error value appended in the function (bound as e)
+	Fn          string // qualified: pkg.Name or pkg.Recv.Name
+	Pkg         string
+	Props       []string
+	Requires    []*Clause
+	Ensures     []*Clause
+	Invs        []*Clause // invariant + decreases
+	Pure        bool
+	Trusted     bool   // body is not verified (external or abstracted)
+	TrustWhy    string // reason text for evidence
+	Inline      bool
+	TrustedPost bool     // body is verified for safety, its postconditions are assumed (reason in TrustWhy)
+	Frozen      []string // heap-name prefixes read in the entry state by abstract predicates (separation assumption)
+	NoMerge     bool     // transparent callee whose return paths are continued separately
+	Transparent bool     // private loop-free helper executed in place at its call sites (no contract boundary)
+	ByExec      bool     // contract is discharged by exhaustive execution over the full (finite) input domain
+	Allocs      int      // -1 = unspecified
+	Assigns     []*Clause
+	Reads       []string // explicit heap names (trusted contracts)
+	Fresh       []string
+	Params      []string // names given in header for external functions (optional)
+	ParamTys    []string
+	ResNames    []string
+	ResTys      []string
+	Ghost       []*Clause
+	File        string
+	Line        int
+	Opaque      bool // callers see only declared ensures (default)
+	NoSafety    bool
+	Unfold      []*Clause
+	Lemmas      []string // names of lemmas whose statements are assumed in this function's VCs
+	Hints       []*Clause
+	OnAppend    []*Clause // obligations on every error value appended in the function (bound as e)
 }
 
 type SpecFn struct {
@@ -75,18 +75,18 @@ type SpecFn struct {
 }
 
 type Lemma struct {
-	Name   string
-	Vars   []string
-	VTypes []string
-	Body   Expr // closed formula (forall ...)
-	Src    string
-	Axiom  bool // assumed, listed in trusted base
+	Name     string
+	Vars     []string
+	VTypes   []string
+	Body     Expr // closed formula (forall ...)
+	Src      string
+	Axiom    bool // assumed, listed in trusted base
 	DataFact bool // a Go boolean expression over package-level values, discharged by executing it
-	Uses   []string
-	Pkg    string
-	Props  []string
-	File   string
-	Line   int
+	Uses     []string
+	Pkg      string
+	Props    []string
+	File     string
+	Line     int
 }
 
 type Specs struct {
